@@ -26,8 +26,8 @@ CMD_TEXTS = ['T3,1,0,0,0,0,0,0,3', 'L3,1,2,3,4,5,6,7,8,9,10,11,12', 'S2,0,4', 'S
              'SC,4,16000', 'SC,10,65535', 'CS', 'SR,60000', 'SR,0,1', 'PO,B,3,1', 'PD,B,3,0', 'SL,7,2',
              'SL,255,31', 'T3,1,0,0,0,0,0,0,3', 'HM,1000', 'HM,1000,0,500', 'CU,50,0', 'CU,1,1',
              'LM,100,5,0,200,-5,0', 'O,1,2', 'O,0', 'C,1,2,3,4', 'N', 'S', 'S,2,3', 'ND', 'NI', 'ES',
-             'ST,abc', 'X', 'X,1', 'Z', 'ST,Studio  East', 'ST,a \t b', 'ST,x  y   z']
-QRY_TEXTS = ['QL,3', 'QL,0', 'QL,31', 'QL', 'QS', 'QE', 'QC', 'QT', 'V', 'QG', 'PI,B,1', 'PI,B,0', 'QM', 'I',
+             'ST,abc', 'ST,50% done', 'ST,A%B', 'ST,100%', 'ST,%s%d', 'X', 'X,1', 'Z', 'RZ', 'RZ,1,2', 'RM,7', 'BX,1', 'ST,Studio  East', 'ST,a \t b', 'ST,x  y   z']
+QRY_TEXTS = ['RQ', 'RQ,1', 'QL,3', 'QL,0', 'QL,31', 'QL', 'QS', 'QE', 'QC', 'QT', 'V', 'QG', 'PI,B,1', 'PI,B,0', 'QM', 'I',
              'MR', 'QP', 'QB', 'QU,4', 'QR', 'QN', 'A', 'Q', 'Q,1', 'I,1']
 WRONG_LINES = ['OK', 'QT,abc', 'QG,3E', 'SM', 'QL,17', 'QS,5,-5', 'EBBv13_and_above EB Firmware Version 3.0.2',
                'V,EBB', 'XM', 'QE,16,16', 'CU', 'PI,1', '0', 'E', '3E', 'QT,', 'garbage', 'QC,0512,0300']
@@ -104,7 +104,7 @@ def _none(rng):
 
 def _a_nick(rng):
     base = rng.choice(['Bob', 'axi 7', 'NextDraw_01', 'x', 'abcdefghijklmnop', 'A', 'Zed9', 'Studio  East', 'a \t b',
-                       'Errol', 'Err', 'OK', 'QT'])
+                       'Errol', 'Err', 'OK', 'QT', '50% done', '100%', '%s'])
     return [decorate(rng, base)], {}
 
 
@@ -287,7 +287,7 @@ def distinct_ram(rng):
 
 def simple_world(rng, fw=(3, 0, 2), style=None, unique=True):
     style = style or rng.choice(['mac', 'linux', 'win'])
-    spec = ebb_spec(PORT_NAMES[style][0], fw=fw, nick=rng.choice(['', 'Bob', 'Axi_1', 'Errol', 'OK']), style=style)
+    spec = ebb_spec(PORT_NAMES[style][0], fw=fw, nick=rng.choice(['', 'Bob', 'Axi_1', 'Errol', 'OK', ',lead', 'QTip', 'Tom']), style=style)
     if unique:
         spec['prior'] = {'ram': distinct_ram(rng), 'steps': [rng.randint(-9999, 9999), rng.randint(-9999, 9999)]}
         spec['voltage'] = rng.choice([0, 100, 249, 250, 251, 300, 1023])
@@ -402,6 +402,12 @@ def reply_fault(oid, r, kd, name, n_lines=2):
     if kd == 'stale_front':
         w = 'QT,abc' if not 'QT,abc'.startswith(name) else 'OK'
         return {'at': at, 'stale': {'text': w + '\n'}}
+    if kd == 'glued':
+        # a reply that begins with the request's name and continues without a separating comma, the data
+        # starting with a character of the name itself (QTTom, VV3, QLL,5)
+        return {'at': at, 'stale': {'text': name + name[0] + 'om,2\n', 'instead': True}}
+    if kd == 'glued2':
+        return {'at': at, 'stale': {'text': name + name[-1] + name[0] + ',,7\n', 'instead': True}}
     if kd == 'stale_near':
         return {'at': at, 'stale': {'text': near_miss(name) + '\n', 'instead': True}}
     if kd == 'late26':
